@@ -2,7 +2,7 @@
    Property theorems only; every proof is `exact <lemma>` (or a two-line combination) from proof/C12_*.v.
    Layer 1: the containers (ring buffer, packet-number-indexed queue, windowed filter). *)
 From Hy Require Import lib.Res lib.F64 lib.F64x model.C12_Queue model.C12_Sender model.C12_Full
-  proof.C12_Ring proof.C12_PQ proof.C12_Layer1 proof.C12_Sender proof.C12_Arith proof.C12_Full proof.C12_Late proof.C12_Burst.
+  proof.C12_Ring proof.C12_PQ proof.C12_Layer1 proof.C12_Sender proof.C12_Arith proof.C12_Full proof.C12_Late proof.C12_Burst proof.C12_Bdp.
 From Coq Require Import ZArith List Bool Lia.
 Import ListNotations.
 Local Open Scope Z_scope.
@@ -560,3 +560,28 @@ Theorem C12_pacer_burst_sustains_rate : forall p bw,
   q <= pacer_budget p bw (p_last p + c12_MinPacingDelayNs).
 Proof. exact pacer_burst_sustains_rate. Qed.
 Print Assumptions C12_pacer_burst_sustains_rate.
+
+(* (h) "does not settle far below capacity" at the target window, over the RTT dimension: getTargetCongestionWindow(gain) is
+   gain x bdpFromRttAndBandwidth(min_rtt, bandwidth estimate) and falls back to gain x the initial window (32 datagrams)
+   when that is zero.  Whenever min_rtt (ns) x bandwidth (bits/s) fits int64, the code's product is the exact floor of the
+   path's bandwidth-delay product in bytes - for ANY min_rtt, sub-millisecond ones included -, so it holds n bytes as soon as
+   the path does and it is zero only for a path holding less than one byte.  A version on whole milliseconds
+   (rtt.Milliseconds() x bytes/s / 1000) is zero for EVERY min_rtt below 1 ms whatever the bandwidth: at 8 Gbit/s x 0.9 ms
+   (703 datagrams in flight needed) the target window would stay at gain x 32 datagrams.  (The harness runs loss-free paths
+   of 0.1..0.9 ms at 3..40 Gbit/s and of 0.5..2 s at 0.25..10 MB/s for every profile and requires >= 50% of capacity in
+   every window.) *)
+Theorem C12_bdp_exact :
+  (forall rtt bw, 0 <= rtt -> 0 <= bw -> rtt * bw < 9223372036854775808 ->
+     bdp_of rtt bw = rtt * bw / (c12_BytesPerSecond * 1000000000)) /\
+  (forall rtt bw n, 0 <= rtt -> 0 <= bw -> rtt * bw < 9223372036854775808 -> 0 <= n ->
+     n * (c12_BytesPerSecond * 1000000000) <= rtt * bw -> n <= bdp_of rtt bw) /\
+  (forall rtt bw, 0 <= rtt -> 0 <= bw -> rtt * bw < 9223372036854775808 ->
+     (bdp_of rtt bw = 0 <-> rtt * bw < c12_BytesPerSecond * 1000000000)) /\
+  (forall rtt bw, 0 <= rtt < 1000000 -> bdp_of_ms rtt bw = 0) /\
+  (bdp_of 900000 8000000000 = 900000 /\ bdp_of_ms 900000 8000000000 = 0).
+Proof.
+  change (c12_BytesPerSecond * 1000000000) with 8000000000.
+  split; [exact bdp_exact|]. split; [exact bdp_at_least|]. split; [exact bdp_zero_iff|].
+  split; [exact bdp_of_ms_sub_ms|exact bdp_ms_example].
+Qed.
+Print Assumptions C12_bdp_exact.
